@@ -134,7 +134,8 @@ fn is_valid_ternary_branch(branch: &ASTTy) -> bool {
         NodeTy::Block { .. }
         | NodeTy::Raise { .. }
         | NodeTy::Match { .. }
-        | NodeTy::Handle { .. } => false,
+        | NodeTy::Handle { .. }
+        | NodeTy::Pass => false,
         NodeTy::IfElse { then, el, .. } => {
             el.as_ref().map_or(false, |el| is_valid_in_ternary(then, el))
         }
